@@ -52,6 +52,34 @@ theorem no_callback_below_nonrandom (t : Node) (r : Bool) : callbacks (used t fa
   · rfl
   · intro p hp; simp [this p hp]
 
+/-- `c` is a direct member of the member sequence `ms` (a sub-object attribute, a list, a list element) -/
+inductive MemberOf : Node → Node → Prop
+  | here (c t : Node) : MemberOf c (.seq c t)
+  | there (c h t : Node) : MemberOf c t → MemberOf c (.seq h t)
+
+theorem used_member (cid : Nat) (cc ms : Node) (h : MemberOf (.obj cid true true cc) ms) :
+    (cid, true) ∈ (used ms true false).2 := by
+  generalize hc : Node.obj cid true true cc = c at h
+  induction h with
+  | here t => subst hc; simp [used]
+  | there hd t _ ih => simp only [used, List.mem_append]; exact Or.inr ih
+
+/-- **Every random sub-object.**  A member declared random whose rand_mode is on, of an object that
+    is random in the call, gets its callbacks — and so on down the tree (apply again to the member) -/
+theorem callback_random_member (id : Nat) (d m : Bool) (ch : Node) (cid : Nat) (cc : Node)
+    (h : MemberOf (.obj cid true true cc) ch) : cid ∈ callbacks (usedInCall (.obj id d m ch)).2 := by
+  rw [callback_iff]
+  simp only [usedInCall, used, Bool.true_and, Bool.or_true, List.mem_cons]
+  exact Or.inr (used_member cid cc ch h)
+
+/-- a member that is not declared random (or whose rand_mode is off) gets no callback, nor does
+    anything below it: its whole contribution to the callback list is empty -/
+theorem no_callback_nonrandom_member (cid : Nat) (d m : Bool) (cc : Node) (parentUsed : Bool)
+    (h : (d && m) = false) : callbacks (used (.obj cid d m cc) parentUsed false).2 = [] := by
+  simp only [used, h, Bool.false_or, Bool.and_false]
+  simp only [callbacks, List.filter_cons, Bool.false_eq_true, if_false]
+  exact no_callback_below_nonrandom cc false
+
 example : callbacks (usedInCall C03.exTree).2 = [0, 1] := by decide
 
 end Pyvsc.C17
